@@ -267,3 +267,98 @@ def run(P, C):
                      "(then it runs during unwinding only); conditional on: %s" % fld)
                 total += 1
     return total
+
+
+# --------------------------------------------------------------------------
+# RH-1: an opened FITS handle is never abandoned (readers and the size model; the writers are covered by ED-2/ED-3)
+# --------------------------------------------------------------------------
+OPENERS = ("fits_open_file", "fits_open_diskfile", "fits_open_memfile", "fits_open_data", "fits_open_image", "fits_create_file", "fits_create_memfile")
+
+
+def handle_states(P, f):
+    """forward may-dataflow: set of states of the function's FITS handle
+    none -> (open call) unchecked -> (status tested zero) open -> (guard constructed) guarded / (fits_close_file) closed;
+    returns (number of open calls, [(node, what)] raising elements and returns reached with the handle open and nobody to close it)"""
+    mt = P.maythrow()
+    guards = guard_classes(P, f)
+    opens = []
+    status = {}
+
+    def transfer(st, e, b, j):
+        if e.get("kind") != "stmt":
+            return st
+        i = e["n"]
+        n = f.nodes[i]
+        cal = n.get("callee")
+        if cal and cfits_name(f, i) in OPENERS:
+            if i not in opens:
+                opens.append(i)
+            sv = status_arg(f, i)
+            if sv is not None:
+                status[i] = sv
+            return frozenset({("unchecked", sv)})
+        if cal and cfits_name(f, i) == CLOSE:
+            return frozenset({("closed", None)})
+        if n["k"] == "DeclStmt":
+            for d in n["decls"]:
+                t = d.get("type", "") or d.get("ctype", "")
+                if any(t.endswith(g.split("::")[-1]) or g.split("::")[-1] in t for g in guards):
+                    return frozenset({("guarded", None)})
+        return st
+
+    def edge(st, b, k, s, cond):
+        if cond is None or cond < 0 or len(f.blocks[b]["succ"]) != 2:
+            return st
+        out = set()
+        for (state, sv) in st:
+            if state == "unchecked" and sv is not None and not isinstance(sv, tuple):
+                z = is_zero_test(f, cond, sv)
+                if z is not None:
+                    nonzero_here = (z == "nonzero-when-true") == (k == 0)
+                    out.add(("none", None) if nonzero_here else ("open", sv))
+                    continue
+            out.add((state, sv))
+        return frozenset(out)
+
+    IN, OUT = core.dataflow(f, frozenset({("none", None)}), transfer, lambda a, b: a | b, edge)
+    bad = []
+    for b, blk in f.blocks.items():
+        if b not in IN:
+            continue
+        st = IN[b]
+        for j, e in enumerate(blk["elems"]):
+            if e.get("kind") == "stmt":
+                i = e["n"]
+                states = {s for s, _ in st}
+                if "open" in states:
+                    if f.k(i) == "ReturnStmt":
+                        bad.append((i, "returns"))
+                    elif P.node_may_throw(f, i, mt) and not P.contained(f, i, mt):
+                        bad.append((i, "may raise (%s)" % f.k(i)))
+            st = transfer(st, e, b, j)
+    seen, res = set(), []
+    for i, w in bad:
+        key = str(f.nodes[i]["loc"])
+        if key not in seen:
+            seen.add(key)
+            res.append((i, w))
+    return len(opens), res
+
+
+def rh1(P, C, floor=3):
+    C.rule("RH-1", "from the moment a FITS handle is known to be open (open call's status tested zero) until a closing guard is constructed or "
+           "fits_close_file is called, nothing may raise or return: otherwise the handle (and one of cfitsio's file slots) is leaked on that "
+           "path; a failed open (status non-zero) leaves nothing to close", floor=floor)
+    n = 0
+    for f in sorted(P.functions.values(), key=lambda g: (g.file, g.line)):
+        if f.unit not in ("driver", "core/fitsio", "tools/eval") and not f.unit.startswith("core/"):
+            continue
+        if not any(cal and cfits_name(f, i) in OPENERS for i, cal in f.calls()):
+            continue
+        no, bad = handle_states(P, f)
+        n += 1
+        from . import ts
+        C.ob("RH-1", ts.fshort(f) if f.cls else f.name, "handle-not-abandoned", not bad, f.loc(bad[0][0]) if bad else f.where(),
+             "%d open call(s); %s" % (no, "no raising element or return between a successful open and the construction of the closing guard / the close"
+                                      if not bad else "%s at %s while the handle is open and nothing owns it" % (bad[0][1], ", ".join(f.loc(i) for i, _ in bad[:4]))))
+    return n
